@@ -105,8 +105,60 @@ func enclosingRanges(p *Prog, n ast.Node, stop ast.Node) []*ast.RangeStmt {
 		if rs, ok := cur.(*ast.RangeStmt); ok {
 			out = append(out, rs)
 		}
+		// `for i := 0; i < len(xs); i++` is read as `for i := range xs`
+		if fs, ok := cur.(*ast.ForStmt); ok {
+			if rs := countingAsRange(fs); rs != nil {
+				out = append(out, rs)
+			}
+		}
 	}
 	return out
+}
+
+var countingRangeCache = map[*ast.ForStmt]*ast.RangeStmt{}
+
+// countingAsRange: the range statement a counting loop over len(xs) abbreviates (key = the
+// counter, X = xs, same body), or nil.
+func countingAsRange(fs *ast.ForStmt) *ast.RangeStmt {
+	if rs, ok := countingRangeCache[fs]; ok {
+		return rs
+	}
+	var res *ast.RangeStmt
+	defer func() { countingRangeCache[fs] = res }()
+	init, ok := fs.Init.(*ast.AssignStmt)
+	if !ok || init.Tok != token.DEFINE || len(init.Lhs) != 1 || len(init.Rhs) != 1 {
+		return nil
+	}
+	iv, ok := init.Lhs[0].(*ast.Ident)
+	if !ok {
+		return nil
+	}
+	if lit, ok := ast.Unparen(init.Rhs[0]).(*ast.BasicLit); !ok || lit.Value != "0" {
+		return nil
+	}
+	post, ok := fs.Post.(*ast.IncDecStmt)
+	if !ok || post.Tok != token.INC {
+		return nil
+	}
+	if pid, ok := ast.Unparen(post.X).(*ast.Ident); !ok || pid.Name != iv.Name {
+		return nil
+	}
+	be, ok := ast.Unparen(fs.Cond).(*ast.BinaryExpr)
+	if !ok || be.Op != token.LSS {
+		return nil
+	}
+	if cid, ok := ast.Unparen(be.X).(*ast.Ident); !ok || cid.Name != iv.Name {
+		return nil
+	}
+	call, ok := ast.Unparen(be.Y).(*ast.CallExpr)
+	if !ok || len(call.Args) != 1 {
+		return nil
+	}
+	if fid, ok := call.Fun.(*ast.Ident); !ok || fid.Name != "len" {
+		return nil
+	}
+	res = &ast.RangeStmt{For: fs.For, Key: iv, Tok: token.DEFINE, X: call.Args[0], Body: fs.Body}
+	return res
 }
 
 func rangeVars(info *types.Info, rss []*ast.RangeStmt) map[types.Object]bool {
